@@ -220,6 +220,10 @@ class P(Service):
     def userping(ctx):
         return 4
 
+    @rpc(_returns=Integer, _patterns=[HttpPattern('/item/spin', verb='GET')])
+    def itemspin(ctx):
+        return 5
+
 
 PAPP = Application([P], TNS, in_protocol=HttpRpc(), out_protocol=JsonDocument())
 PW = WsgiApplication(PAPP)
@@ -228,7 +232,7 @@ PW = WsgiApplication(PAPP)
 @harness('C11', tier_params={'quick': [1, 4, 5, 6, 7, 8, 10, 11], 'thorough': list(range(1, 14))}, label=lambda L: 'pathlen=%d' % L,
          functions=['spyne.server.http.HttpBase.match_pattern', 'spyne.protocol.http.HttpPattern._compile_url_pattern'],
          bounds={'path': 'every path of the given lengths over the characters of the registered addresses '
-                         '(/user, /item/<item_id>, /ping, /user/ping) plus two foreign characters; verbs GET, POST, PUT'})
+                         '(/user, /item/<item_id>, /item/spin, /ping, /user/ping) plus two foreign characters; verbs GET, POST, PUT'})
 def http_pattern(sx, L):
     """HttpPattern routing: the method whose address pattern matches the *whole* path (and whose verb matches) is
     selected; a path that merely starts with, ends with or resembles a registered address selects nothing"""
@@ -241,9 +245,11 @@ def http_pattern(sx, L):
     params = PW.match_pattern(ctx, verb, path, 'localhost')
     got = ctx.method_request_string
     sx.observe('selected', got)
-    # reference: first pattern, in the transport's own order, whose address matches the whole path
+    # reference: among the patterns whose address matches the whole path (and whose verb matches), a literal
+    # address wins over one with a placeholder (the most specific address answers)
+    pats = sorted(PW._http_patterns, key=lambda x: ('<' in x.address, x.address))
     want = []
-    for patt in PW._http_patterns:
+    for patt in pats:
         verb_ok = patt.verb is None or re.fullmatch(patt.verb_re.pattern, verb) is not None
         if not verb_ok:
             continue
@@ -255,3 +261,74 @@ def http_pattern(sx, L):
         none_before = sx.And(none_before, sx.Not(m))
     ok.append(sx.Implies(none_before, got is None))
     return sx.And(*ok)
+
+
+# ---------------------------------------------------------------- colliding names are rejected at construction
+from spyne import ComplexModel
+
+
+class Parcel(ComplexModel):
+    __namespace__ = TNS
+    n = Integer
+
+
+def _colliding(kind):
+    if kind == 'same-name wrapped':
+        class S1(Service):
+            @rpc(_returns=Integer)
+            def run(ctx):
+                return 1
+
+        class S2(Service):
+            @rpc(_returns=Integer)
+            def run(ctx):
+                return 2
+    elif kind == 'operation_name':
+        class S1(Service):
+            @rpc(_returns=Integer)
+            def run(ctx):
+                return 1
+
+        class S2(Service):
+            @rpc(_returns=Integer, _operation_name='run')
+            def other(ctx):
+                return 2
+    elif kind == 'bare in_message_name':
+        class S1(Service):
+            @rpc(Parcel, _returns=Integer, _body_style='bare')
+            def submit(ctx, p):
+                return 1
+
+        class S2(Service):
+            @rpc(Parcel, _returns=Integer, _body_style='bare', _in_message_name='submit')
+            def ship(ctx, p):
+                return 2
+    else:
+        raise ValueError(kind)
+    return S1, S2
+
+
+@harness('C11', params=['same-name wrapped', 'operation_name', 'bare in_message_name'],
+         functions=['spyne.interface._base.Interface.process_method', 'spyne.application.Application.check_unique_method_keys'],
+         bounds={'universes': 'three concrete pairs of services whose methods answer to the same name, in both orders '
+                              '(enumeration of programs, no symbolic input)'})
+def colliding_names_rejected(sx, kind):
+    """two methods that would answer to the same name are rejected when the application is constructed - or, if the
+    application is accepted, which function answers does not depend on the order of the services"""
+    order = sx.choose('order', ['S1,S2', 'S2,S1'])
+    S1, S2 = _colliding(kind)
+    services = [S1, S2] if order == 'S1,S2' else [S2, S1]
+    try:
+        app = Application(services, TNS, in_protocol=JsonDocument(), out_protocol=JsonDocument(),
+                          name='Coll_%s_%s' % (kind.replace(' ', '_'), order.replace(',', '')))
+    except Exception:
+        return True
+    # accepted: then the name must not be ambiguous - at most one primary function may answer to each name
+    names = {}
+    for k, descs in app.interface.service_method_map.items():
+        names[k] = sorted(d.function.__name__ for d in descs)
+    other = Application(list(reversed(services)), TNS, in_protocol=JsonDocument(), out_protocol=JsonDocument(),
+                        name='CollR_%s_%s' % (kind.replace(' ', '_'), order.replace(',', '')))
+    names2 = dict((k, sorted(d.function.__name__ for d in descs)) for k, descs in other.interface.service_method_map.items())
+    sx.observe('map', names)
+    return names == names2
